@@ -225,7 +225,9 @@ package golang
 //@   loop 1
 //@     invariant [attr] errorAttrib != nil && errorAttrib >= old(alloc()) && errorAttrib.Err == err && errorAttrib.ErrorToken == old(p.nextToken)
 //@     invariant [arr] arr(errorAttrib.ExpectedTokens) >= old(alloc()) && (len(errorAttrib.ErrorSymbols) == 0 || arr(errorAttrib.ErrorSymbols) >= old(alloc()))
+//@     invariant [symbols] len(errorAttrib.ErrorSymbols) == old(len(p.stack.state)) - len(p.stack.state) && all(j, 0, len(errorAttrib.ErrorSymbols), errorAttrib.ErrorSymbols[j] == old(view(p.stack.attrib))[len(p.stack.state)+j])
 //@   loop 2
+//@     invariant [symbols] len(errorAttrib.ErrorSymbols) == old(len(p.stack.state)) - (len(p.stack.state) - 1) && all(j, 0, len(errorAttrib.ErrorSymbols), errorAttrib.ErrorSymbols[j] == old(view(p.stack.attrib))[len(p.stack.state)-1+j])
 //@     invariant [order] ScanK >= old(ScanK) && imp(ScanK > old(ScanK), p.nextToken == TokAt(ScanK-1)) && imp(ScanK == old(ScanK), p.nextToken == old(p.nextToken))
 //@     invariant [tok] tokOK(p.nextToken)
 //@     invariant [rec] imp(recovered, act(topState(p), p.nextToken.Type) != nil) && imp(!recovered, act(topState(p), p.nextToken.Type) == nil)
